@@ -1,9 +1,154 @@
--- line-protocol handler of property C19 (stub: nothing modelled yet)
+-- line-protocol handler of property C19 (public coin)
+-- op lines (after the property id), mirrored by harness/src/bin/c19.rs:
+--   run HASHER FIELD SEED OP...
+--     HASHER  toy0 | toy1 | toy2 (toy hasher, modelled) | a real hasher name (not modelled: "-")
+--     FIELD   f64 | f62 | f128        SEED  comma separated canonical integers, or "-"
+--     OP      rs:HEX (reseed with H::hash(bytes)) | d:DEG (draw) | di:N:DOMAIN:NONCE (draw_integers)
+--             | lz:NONCE (check_leading_zeros) | gr:GF (the prover's nonce search, at most 4096 candidates)
+--   output: one item per op joined by ";": u | e:c0,c1,.. | i:v0,v1,.. | n:K | g:NONCE | g:none | err | panic (stops)
+--   oracle HASHER FIELD SEED TABLE OP...   the same, with the hasher given by a recorded table
+--     TABLE   "|"-separated entries  he:ELEMS=DIGEST | h:HEX=DIGEST | m:HEX=DIGEST | mi:HEX:INT=DIGEST  (as_bytes, 32 bytes)
 import Winter.Drv.Util
+import Winter.Model.Coin
+import Winter.Gen.F64
+import Winter.Gen.F62
+import Winter.Gen.F128
 
 namespace Drv.C19
+open Model.Coin
 
-def handle (_toks : List String) : String := "-"
+def field? : String → Option FieldDesc
+  | "f64" => some ⟨Gen.F64.M, 8⟩
+  | "f62" => some ⟨Gen.F62.M, 8⟩
+  | "f128" => some ⟨Gen.F128.M, 16⟩
+  | _ => none
+
+def outStr : Out → String
+  | .elem cs => "e:" ++ ",".intercalate (cs.map toString)
+  | .ints vs => "i:" ++ ",".intercalate (vs.map toString)
+  | .num n => s!"n:{n}"
+  | .unit => "u"
+  | .err => "err"
+  | .panic _ => "panic"
+
+/-- a hasher for the driver: the abstract operations plus `hash` of raw bytes (used to make reseed
+    digests); `none` = the oracle table has no entry -/
+structure DrvHasher where
+  ops : HashOps (Option (List Nat))
+  hash : List Nat → Option (List Nat)
+
+def toyHasher (mode eb : Nat) : DrvHasher :=
+  let T := Toy.ops mode eb
+  { ops :=
+      { hashElements := fun es => some (T.hashElements es)
+        merge := fun a b => match a, b with
+          | some a, some b => some (T.merge a b)
+          | _, _ => none
+        mergeWithInt := fun s v => match s with
+          | some s => some (T.mergeWithInt s v)
+          | none => none
+        asBytes := fun d => match d with
+          | some d => d
+          | none => [] }
+    hash := fun bs => some (Toy.hash mode bs) }
+
+def parseNats (s : String) : Option (List Nat) :=
+  if s == "-" then some [] else (s.splitOn ",").mapM (fun t => t.toNat?)
+
+/-- the table hasher: lookups by the textual key -/
+def tableHasher (table : List (String × List Nat)) : DrvHasher :=
+  let look (k : String) : Option (List Nat) := (table.find? (fun e => e.1 == k)).map (·.2)
+  { ops :=
+      { hashElements := fun es => look ("he:" ++ (if es.isEmpty then "-" else ",".intercalate (es.map toString)))
+        merge := fun a b => match a, b with
+          | some a, some b => look ("m:" ++ hexOf (a ++ b))
+          | _, _ => none
+        mergeWithInt := fun s v => match s with
+          | some s => look ("mi:" ++ hexOf s ++ ":" ++ toString v)
+          | none => none
+        asBytes := fun d => match d with
+          | some d => d
+          | none => [] }
+    hash := fun bs => look ("h:" ++ hexOf bs) }
+
+def parseTable (s : String) : Option (List (String × List Nat)) :=
+  if s == "-" then some [] else
+  (s.splitOn "|").mapM fun e =>
+    match e.splitOn "=" with
+    | [k, v] => (unhex v).map (fun d => (k, d))
+    | _ => none
+
+/-- a digest is missing (oracle table incomplete): the model cannot continue -/
+def missing (c : Coin (Option (List Nat))) : Bool := c.seed.isNone
+
+/-- interpret the op tokens -/
+def interp (H : DrvHasher) (fd : FieldDesc) : Nat → Coin (Option (List Nat)) → List String → List String → List String
+  | 0, _, _, acc => acc.reverse
+  | _, _, [], acc => acc.reverse
+  | fuel + 1, c, tok :: rest, acc =>
+    if missing c then ("miss" :: acc).reverse else
+    match tok.splitOn ":" with
+    | ["rs", h] =>
+      match unhex h with
+      | some bs =>
+        let (o, c') := step H.ops c (.reseed (H.hash bs))
+        interp H fd fuel c' rest (outStr o :: acc)
+      | none => ["bad-op"]
+    | ["d", deg] =>
+      match deg.toNat? with
+      | some deg =>
+        if deg < 1 ∨ 3 < deg then ["bad-op"] else
+        let (o, c') := step H.ops c (.draw fd deg)
+        if isPanic o then (outStr o :: acc).reverse else interp H fd fuel c' rest (outStr o :: acc)
+      | none => ["bad-op"]
+    | ["di", n, dom, nonce] =>
+      match n.toNat?, dom.toNat?, nonce.toNat? with
+      | some n, some dom, some nonce =>
+        let (o, c') := step H.ops c (.drawIntegers n dom nonce)
+        if isPanic o then (outStr o :: acc).reverse else interp H fd fuel c' rest (outStr o :: acc)
+      | _, _, _ => ["bad-op"]
+    | ["lz", v] =>
+      match v.toNat? with
+      | some v =>
+        let (o, c') := step H.ops c (.checkLeadingZeros v)
+        interp H fd fuel c' rest (outStr o :: acc)
+      | none => ["bad-op"]
+    | ["gr", gf] =>
+      match gf.toNat? with
+      | some gf =>
+        let r := match grind H.ops c gf 4096 1 with
+          | some n => s!"g:{n}"
+          | none => "g:none"
+        interp H fd fuel c rest (r :: acc)
+      | none => ["bad-op"]
+    | _ => ["bad-op"]
+
+def runLine (H : DrvHasher) (fd : FieldDesc) (seed : String) (ops : List String) : String :=
+  match parseNats seed with
+  | some es =>
+    if es.any (fun e => decide (fd.M ≤ e)) then "bad-op" else
+    let c := new H.ops es
+    let outs := interp H fd (ops.length + 1) c ops []
+    if outs.contains "bad-op" then "bad-op"
+    else if outs.contains "miss" then "oracle-miss"
+    else if outs.isEmpty then "-" else ";".intercalate outs
+  | none => "bad-op"
+
+def handle : List String → String
+  | "run" :: hasher :: field :: seed :: ops =>
+    match field? field with
+    | some fd =>
+      match hasher with
+      | "toy0" => runLine (toyHasher 0 fd.bytes) fd seed ops
+      | "toy1" => runLine (toyHasher 1 fd.bytes) fd seed ops
+      | "toy2" => runLine (toyHasher 2 fd.bytes) fd seed ops
+      | _ => "-"
+    | none => "bad-op"
+  | "oracle" :: _hasher :: field :: seed :: table :: ops =>
+    match field? field, parseTable table with
+    | some fd, some t => runLine (tableHasher t) fd seed ops
+    | _, _ => "bad-op"
+  | _ => "bad-op"
 
 end Drv.C19
 
